@@ -20,6 +20,7 @@ pub trait DynProp: Sync {
     fn replay(&self, v: serde_json::Value) -> Result<Option<Failure>, String>;
     fn shrink_json(&self, v: &serde_json::Value) -> Vec<serde_json::Value>;
     fn corpus(&self, seed: u64) -> Vec<Vec<u8>>;
+    fn digest_of(&self, v: serde_json::Value) -> Result<u64, String>;
 }
 
 pub struct Erased<P: Prop>(pub std::marker::PhantomData<fn() -> P>);
@@ -56,6 +57,9 @@ impl<P: Prop> DynProp for Erased<P> {
     }
     fn corpus(&self, seed: u64) -> Vec<Vec<u8>> {
         P::corpus(seed)
+    }
+    fn digest_of(&self, v: serde_json::Value) -> Result<u64, String> {
+        worker::digest_of::<P>(v)
     }
     fn shrink_json(&self, v: &serde_json::Value) -> Vec<serde_json::Value> {
         let cv = v.get("case").cloned().unwrap_or_else(|| v.clone());
